@@ -41,7 +41,7 @@ func (prop) Run(t *testing.T, s *sim.Sim, res *runner.Result) {
 		// Strict: templates with a required patch whose source the XR may lack (a
 		// template that stops rendering and renders again later), and a composed
 		// kind that rejects some applies
-		Params: xrworld.DrawParams{Strict: true},
+		Params: xrworld.DrawParams{Strict: true, NameGames: true},
 		Faults: []sim.Outcome{sim.ErrBefore, sim.ErrAfter, sim.Conflict, sim.CrashBefore, sim.CrashAfter, sim.Stale},
 		Env: func(w *xrworld.W, wl *xrworld.Workload) []sim.Action {
 			cs := w.ComposedObjects()
